@@ -84,7 +84,7 @@ def gen_program(rng, prop, tier, run_index):
     mode = 'dynamics' if prop == 'C15' else 'statics'
     if prop == 'C02' and rng.random() < 0.25:
         mode = 'dynamics'
-    cfg = {'mode': mode, 'mesh': gen_mesh_cfg(rng, 2 if mode == 'dynamics' else 3),
+    cfg = {'mode': mode, 'mesh': gen_mesh_cfg(rng, 2 if (mode == 'dynamics' or tier == 'quick') else 3),
            'material': gen_material(rng, mode, prop),
            'bcs': [[s, int(c)] for s in SIDES for c in (0, 1) if rng.random() < 0.3],
            'fseed': int(rng.integers(0, 2**31)), 'fault_mode': bool(rng.random() < 0.4)}
@@ -113,6 +113,13 @@ def gen_program(rng, prop, tier, run_index):
                    ppd=(None if rng.random() < 0.7 else int(rng.integers(0, 2))),
                    nblocks=int(rng.integers(1, 5)), blockseed=int(rng.integers(0, 2**31)),
                    dt=float(10.0 ** rng.uniform(-1, 1)))
+        cfg['helpers'] = bool(prop == 'C07')
+        if prop == 'C07':
+            cfg.update(mode2D='plane strain', ppd=None, nblocks=1)
+            cfg['mesh']['order'] = min(cfg['mesh']['order'], 2)
+            cfg['mesh']['nx'], cfg['mesh']['ny'] = min(cfg['mesh']['nx'], 3), min(cfg['mesh']['ny'], 3)
+            if cfg['material']['kind'] in ('gent', 'visco1'):
+                cfg['material'] = {'kind': 'neohookean', 'elastic modulus': 10.0, 'poisson ratio': 0.3, 'version': 'coupled'}
         if cfg['mode2D'] == 'axisymmetric':
             cfg['mesh']['shift'] = [abs(cfg['mesh']['shift'][0]) + 2.0, cfg['mesh']['shift'][1]]   # keep r > 0
         n = int(rng.integers(2, 7))
@@ -611,6 +618,96 @@ class Statics(Base):
         ctx.require(abs(lhs - rhs) <= 1e-10 * sc + floor, 'C10', 'fe_output/virtual_work',
                     lambda: 'first variation of the energy %.12g != integral of output stress : grad(dU) %.12g' % (lhs, rhs), sig=self.sig)
 
+    # -- C07 FE level: helper VJPs vs transposed dense Jacobians of the public forward maps ------------
+    def adjoint_helpers_check(self):
+        ctx, L = self.ctx, self.L
+        jax, jnp, FS, Mech, MI, AFS = L['jax'], L['jnp'], L['FS'], L['Mech'], L['MI'], L['AFS']
+        if self.mode2D != 'plane strain' or self.cfg['ppd'] is not None:
+            return
+        mesh, quad, mat, dt = self.mesh, self.quad, self.mat, self.dt
+        X0 = jnp.asarray(self.X)
+        Uj, st = jnp.asarray(self.U), jnp.asarray(self.state)
+        shapeOnRef = L['Interp'].compute_shapes(mesh.parentElement, quad.xigauss)
+        sig = dict(self.sig)
+        r = np.random.Generator(np.random.PCG64(int(self.cfg['fseed']) + 99))
+
+        # (a) function space rebuilt from perturbed coordinates == constructed directly on the moved mesh
+        Xp = X0 + jnp.asarray(r.normal(size=self.X.shape) * 0.02 * (1.0 / max(self.cfg['mesh']['nx'], self.cfg['mesh']['ny'])))
+        fa = AFS.construct_function_space_for_adjoint(Xp, shapeOnRef, mesh, quad)
+        fd = FS.construct_function_space(mesh._replace(coords=Xp), quad)
+        for name in ('shapes', 'vols', 'shapeGrads'):
+            a, b = np.asarray(getattr(fa, name)), np.asarray(getattr(fd, name))
+            ctx.require(a.shape == b.shape and np.array_equal(a, b), 'C07', 'adjoint_function_space',
+                        lambda: 'function space rebuilt for shape sensitivities differs from direct construction in %s by %.3g'
+                        % (name, np.max(np.abs(a - b)) if a.shape == b.shape else np.nan), sig=sig)
+        ctx.require(np.array_equal(np.asarray(fa.mesh.coords), np.asarray(Xp)), 'C07', 'adjoint_function_space', 'coordinates not carried', sig=sig)
+
+        # public forward maps, parameterised by coordinates
+        def mech_at(X):
+            fsx = FS.construct_function_space_from_parent_element(mesh._replace(coords=X), shapeOnRef, quad)
+            return Mech.create_mechanics_functions(fsx, 'plane strain', mat)
+
+        def ivs_update(U, q, X):
+            return mech_at(X).compute_updated_internal_variables(U, q, dt)
+
+        def energy(U, q, X):
+            return mech_at(X).compute_strain_energy(U, q, dt)
+
+        def close(name, got, want, scale_extra=0.0):
+            got, want = np.asarray(got, dtype=float), np.asarray(want, dtype=float)
+            if got.size == 0 and want.size == 0:
+                ctx.skip('C07.helper/no_internal_variables')
+                return
+            if not (np.all(np.isfinite(got)) and np.all(np.isfinite(want))):
+                ctx.skip('C07.helper/nonfinite')
+                return
+            sc = np.max(np.abs(want)) + scale_extra + 1e-300
+            ctx.require(got.shape == want.shape and np.max(np.abs(got - want)) <= 1e-9 * sc, 'C07', 'helper_vjp/' + name,
+                        lambda: '%s: helper product differs from the transposed action of the dense Jacobian by %.3g (scale %.3g)'
+                        % (name, np.max(np.abs(got - want)) if got.shape == want.shape else np.nan, sc), sig=sig)
+        try:
+            with core.quiet_stdout():
+                inv = MI.create_ivs_update_inverse_functions(self.fs, 'plane strain', mat)
+                av = jnp.asarray(r.normal(size=np.asarray(st).shape))
+                # dense Jacobians by forward mode over the public forward map
+                J_U = jax.jacfwd(ivs_update, 0)(Uj, st, X0)          # state.shape + U.shape
+                J_X = jax.jacfwd(ivs_update, 2)(Uj, st, X0)
+                nd = np.asarray(st).ndim
+                want_U = jnp.tensordot(av, J_U, axes=nd)
+                want_X = jnp.tensordot(av, J_X, axes=nd)
+                close('ivs_update_jac_disp', inv.ivs_update_jac_disp_vjp(Uj, st, av, dt), want_U)
+                close('ivs_update_jac_coords', inv.ivs_update_jac_coords_vjp(Uj, st, X0, av, dt), want_X)
+                # d(state_new)/d(state_old) per quadrature point: block diagonal of the dense Jacobian
+                J_q = np.asarray(jax.jacfwd(ivs_update, 1)(Uj, st, X0))
+                blocks = np.asarray(inv.ivs_update_jac_ivs_prev(Uj, st, dt))
+                ne, nq, ns = np.asarray(st).shape
+                dense_blocks = np.array([[J_q[e, q, :, e, q, :] for q in range(nq)] for e in range(ne)])
+                close('ivs_update_jac_ivs_prev', blocks, dense_blocks, scale_extra=1.0)
+                off = J_q.copy()
+                for e in range(ne):
+                    for q in range(nq):
+                        off[e, q, :, e, q, :] = 0.0
+                ctx.require(off.size == 0 or np.max(np.abs(off)) == 0.0, 'C07', 'helper_vjp/ivs_update_jac_ivs_prev',
+                            'internal-variable update couples different quadrature points', sig=sig)
+                # residual helpers
+                def efun(U, qdesign, iv, X):
+                    return energy(U, iv, X)
+                res = MI.create_path_dependent_residual_inverse_functions(efun)
+                vx = jnp.asarray(r.normal(size=self.U.shape))
+                G_iv = jax.jacfwd(lambda iv: jax.grad(energy, 0)(Uj, iv, X0))(st)     # U.shape + state.shape
+                G_X = jax.jacfwd(lambda X: jax.grad(energy, 0)(Uj, st, X))(X0)
+                close('residual_jac_ivs_prev', res.residual_jac_ivs_prev_vjp(Uj, None, st, X0, vx), jnp.tensordot(vx, G_iv, axes=2))
+                close('residual_jac_coords', res.residual_jac_coords_vjp(Uj, None, st, X0, vx), jnp.tensordot(vx, G_X, axes=2))
+                res2 = MI.create_residual_inverse_functions(lambda U, qd, X: energy(U, st, X))
+                close('residual_jac_coords_elastic', res2.residual_jac_coords_vjp(Uj, None, X0, vx), jnp.tensordot(vx, G_X, axes=2))
+        except (core.RunTimeout, core.Violation):
+            raise
+        except Exception as e:
+            ctx.violate('C07', 'helper_vjp/completes', 'helper products raised %r' % e, sig=dict(sig, exc=type(e).__name__))
+            return
+        ctx.probe('adjoint_helpers_checked')
+        ctx.nontrivial = True
+
     # -- ops ------------------------------------------------------------------------------------------
     def admissible(self, U):
         g = np.asarray(self.L['FS'].compute_field_gradient(self.fs, self.L['jnp'].asarray(U)))
@@ -634,7 +731,7 @@ class Statics(Base):
             with core.quiet_stdout():
                 newb = self.mech_b.compute_updated_internal_variables(jnp.asarray(self.U), self.state_b, self.dt)
             a, b = np.asarray(new), np.asarray(newb)
-            if np.all(np.isfinite(a)):
+            if a.size and np.all(np.isfinite(a)):
                 sc = np.max(np.abs(a)) + 1e-300
                 self.ctx.require(a.shape == b.shape and np.max(np.abs(a - b)) <= 1e-12 * sc, 'C02', 'blocks/state_update',
                                  lambda: 'internal-variable update of the block replica differs by %.3g' % np.max(np.abs(a - b)), sig=self.sig)
@@ -711,6 +808,8 @@ def run_program(program, ctx):
             app.set_bcs(op['bcs'])
             ctx.label('rebuild_bcs')
         app.audit(k)
+    if cfg.get('helpers'):
+        app.adjoint_helpers_check()
 
 
 def cleanup():
